@@ -73,6 +73,18 @@ def r_helpers(chk, P, tier):
                 sers = {c[1].split("::")[-1] for t in ts for c in find_calls(t) if isinstance(c[1], str) and "Serializer::serialize_" in c[1]}
                 want_ser = {"serialize_i64"} if not opt else {"serialize_some", "serialize_none"}
                 chk.expect(accs == {acc} and sers == want_ser, ser, "%s serializes %s via %s (expected %s via %s)" % (ser, sorted(accs), sorted(sers), acc, sorted(want_ser)), loc=P.loc(ser))
+            # the reading side asks the data format for the same primitive the writing side produced: i64 (a u64 request makes
+            # non-self-describing formats misread negative timestamps)
+            from rules import callees
+            de = "%sts_%s::deserialize" % (fam, unit)
+            got = {c.split("::")[-1] for c in callees(P, de) if "Deserializer::deserialize_" in c}
+            chk.expect(got == {"deserialize_i64"}, de, "%s requests %s from the deserializer (serialize writes an i64)" % (de, sorted(got)), loc=P.loc(de))
+            deo = "%sts_%s_option::deserialize" % (fam, unit)
+            got = {c.split("::")[-1] for c in callees(P, deo) if "Deserializer::deserialize_" in c}
+            vs = [n for n in P.fns if n.startswith("<%sts_%s_option::" % (fam, unit)) and n.endswith("::visit_some") and P.has(n)]
+            got2 = {c.split("::")[-1] for v in vs for c in callees(P, v) if "Deserializer::deserialize_" in c}
+            chk.expect(got == {"deserialize_option"} and len(vs) == 1 and got2 == {"deserialize_i64"}, deo,
+                       "%s requests %s and its visit_some requests %s (expected deserialize_option, then deserialize_i64)" % (deo, sorted(got), sorted(got2)), loc=P.loc(deo))
             # visitors live in the non-option module (the option visitor delegates)
             mod = "%sts_%s::" % (fam, unit)
             for vname, signed in (("visit_i64", True), ("visit_u64", False)):
